@@ -117,7 +117,13 @@ func runC17(c *core.Ctx, o Options) {
 	checkTemplateRebuild(c, "T")
 	// P2: the bytes handed out for one serialization are not rewritten by the next one of the same message object
 	checkImageFresh(c, "P2")
-	c.RuleMin = map[string]int{"P1": 10, "S": 15, "V": 43, "T": 2, "P2": 2}
+	// D (premise for "populated by parsing"): the decoder puts each value of the message into its own field of its own entry
+	// (the rules R3–R8 of C02): a nested group read from the wrong slice populates fields the message never carried
+	c.RulePrefix = "D"
+	decoderRules(c)
+	c.RulePrefix = ""
+	c.Explanation += " D (premise, = C02.R3–R8): the decoder puts each value into its own field of its own entry — Item switch, per-entry loop fed by the split pieces, exact value extraction, anchored separator and needles, partition, item loops."
+	c.RuleMin = map[string]int{"P1": 10, "S": 15, "V": 43, "T": 2, "P2": 2, "D": 18}
 	c.MinObl = 60
 }
 
